@@ -153,6 +153,11 @@ def base : Handler
           | .error err => some (showErr err)
           | .ok y => some ("ok " ++ showMat y)
       | _ => none
+  | "c15.d2u_unweighted", ts => ans do
+      let (e, _) ← parseExpr ts
+      match (do (← e.eval).d2uUnweighted : Except PyErr Op) with
+      | .error err => some (showErr err)
+      | .ok _ => some "ok"
   | "c15.shared", [pat, n, m, rows, nz, v] => ans do
       -- one CoNeighbor object used twice (finding F16i): the in-place semantics of the code
       let p ← match pat with
